@@ -147,6 +147,10 @@ func check(c *enum.Ctx, k kase) (nontrivial bool) {
 				q = linear.NewQSeq("q", nil, alphabet.DNA, e2)
 				_ = fmt.Sprintf("%q", q)
 				q.AppendQLetters(qls...)
+				// the caller fills its buffer with the next record: the sequence keeps the scores it was given
+				for i := range qls {
+					qls[i] = alphabet.QLetter{L: 't', Q: 1}
+				}
 			}
 			q.Offset = 3
 			if k.Via != "empty" {
@@ -369,6 +373,12 @@ func check(c *enum.Ctx, k kase) (nontrivial bool) {
 		if r := alphabet.Qphred(k.V).ProbE() / got.ProbE(); r > math.Pow(10, 0.0501) || r < math.Pow(10, -0.0501) {
 			fail("Qphred.Qsolexa/probE", "Qphred(%d).ProbE()=%g but its Solexa conversion %d has ProbE %g", k.V, alphabet.Qphred(k.V).ProbE(), got, got.ProbE())
 		}
+		// a Phred score written under the Solexa encoding is its conversion, written: the byte decodes to it
+		if b := int(got) + 64; printable(alphabet.Solexa, b) {
+			if enc := alphabet.Qphred(k.V).Encode(alphabet.Solexa); int(enc) != b {
+				fail("Qphred.Encode/Solexa", "Qphred(%d).Encode(Solexa) = %d, its Solexa conversion %d is written as %d", k.V, enc, got, b)
+			}
+		}
 		if k.V >= 10 {
 			if back := got.Qphred(); int(back) != k.V {
 				fail("Qphred.Qsolexa.Qphred/inverse", "Qphred(%d).Qsolexa().Qphred() = %d", k.V, back)
@@ -390,6 +400,13 @@ func check(c *enum.Ctx, k kase) (nontrivial bool) {
 		}
 		if r := alphabet.Qsolexa(s).ProbE() / got.ProbE(); r > math.Pow(10, 0.0501) || r < math.Pow(10, -0.0501) {
 			fail("Qsolexa.Qphred/probE", "Qsolexa(%d).ProbE()=%g but its Phred conversion %d has ProbE %g", s, alphabet.Qsolexa(s).ProbE(), got, got.ProbE())
+		}
+		for _, e := range phredEnc {
+			if b := int(got) + offset(e); printable(e, b) {
+				if enc := alphabet.Qsolexa(s).Encode(e); int(enc) != b {
+					fail("Qsolexa.Encode/"+encNames[e], "Qsolexa(%d).Encode(%s) = %d, its Phred conversion %d is written as %d", s, encNames[e], enc, got, b)
+				}
+			}
 		}
 		if s >= 10 {
 			if back := got.Qsolexa(); int(back) != s {
